@@ -87,6 +87,31 @@ def run(ctx):
         g = gen.ProgGen(w, rnd, noise=0.0, composites=False, usestr=False)
         progs = [g.program(t, rnd.randrange(1, 4)) for t in (1, 2)]
         cases.append(('mix%d' % i, w, gen.interleave(rnd, progs)))
+    # through the public pipeline: whenever BSD is requested (class 4 or a BSD subclass) - whatever ELSE the filter lists
+    # name - the lookups are read and every reported BSD syscall shows the same paths as in the unfiltered run
+    from .pipeline import traces_via_api, traces_direct
+    nmix = 0
+    mixes = [{'fclass': [4], 'fsub': []}, {'fclass': [4], 'fsub': [0x0302]}, {'fclass': [4, 1], 'fsub': [0x0308, 0x0140]},
+             {'fclass': [], 'fsub': [0x040c, 0x0302]}, {'fclass': [4], 'fsub': [0x0301]}, {'fclass': [31, 4], 'fsub': [0x0703]}]
+    for i in range(40 if ctx.quick else 600):
+        w = World(rnd, big_tids=False)
+        g = gen.ProgGen(w, rnd, ntids=2, noise=0.0, composites=False, usestr=False, strings=False)
+        stream = gen.interleave(rnd, [g.program(t, rnd.randrange(1, 4)) for t in (1, 2)])[:50]
+        want = {(a, b): t for a, b, t in traces_direct(w, stream)}
+        cfg = dict(ftid=0, fproc={'kind': 'none'}, **mixes[i % len(mixes)])
+        try:
+            got, d = traces_via_api(w, stream, cfg=cfg)
+        except Exception as ex:
+            ctx.violation('C08/pipeline-raised', 'traces() with %s raised %r' % (cfg, ex), {'kind': 'code->spec', 'stream': []})
+            continue
+        for a, b, t in got:
+            nmix += 1
+            first = stream[b - 1] if b > 0 else None
+            if first is not None and (first.debugid >> 24) == 4 and want.get((a, b)) != t:
+                ctx.violation('C08/paths-differ-under-filter', 'filter %s: the syscall completed by event %d reads %r, unfiltered %r'
+                              % (cfg, a, t, want.get((a, b))), {'kind': 'code->spec', 'stream': []})
+                break
+    ctx.extra['pipeline_texts_under_mixed_filters'] = nmix
     execs = validate_streams(ctx, cases, 'full', 'c08val')
     ctx.sample({'case': cases[5][0], 'events': [a.abs for a in cases[5][2]][:3]})
     ctx.extra['code_to_spec'] = {'cases': len(cases), 'path_taking_decoders': len(names), 'text_lengths': len(lens),
